@@ -230,6 +230,24 @@ theorem datas_set_self (defs : Defs) (ref : Nat) :
   have : ({ (defs.datas.getD ref default) with encoding := (defs.datas.getD ref default).encoding } : DataDef) = defs.datas.getD ref default := rfl
   rw [this, set_getD_self]
 
+theorem dataStore_id (st : Static) (defs defs' : Defs) (ctx : RCtx) (ref : Nat) (sliced : Option BI) (rep : List String)
+    (hfirst : ctx.first = false) (h : dataStore st defs ctx ref sliced = .ok (defs', true, rep)) : defs' = defs := by
+  unfold dataStore at h
+  cases sliced with
+  | none =>
+    simp only at h
+    injection h with h; injection h with _ h2; injection h2 with h2 _; cases h2
+  | some b =>
+    simp only [hfirst, Bool.and_false, Bool.false_and, Bool.false_eq_true, if_false] at h
+    rcases ite_ok_inv _ _ _ _ h with ⟨_, h⟩ | ⟨hc, h⟩
+    · injection h with h; injection h with _ h2; injection h2 with h2 _; cases h2
+    · injection h with h; injection h with h1 _
+      subst h1
+      have hb : (b.v == (defs.datas.getD ref default).encoding.v && b.size == (defs.datas.getD ref default).encoding.size) = true := by
+        simpa using hc
+      rw [bi_eq_of_beq _ _ hb]
+      exact datas_set_self defs ref
+
 theorem resolveData_id (st : Static) (defs defs' : Defs) (ctx : RCtx) (ref : Nat) (elemSize : Option Nat) (e : Expr) (rep : List String)
     (hfirst : ctx.first = false)
     (h : resolveData st defs ctx ref elemSize e = .ok (defs', true, rep)) : defs' = defs := by
@@ -245,34 +263,9 @@ theorem resolveData_id (st : Static) (defs defs' : Defs) (ctx : RCtx) (ref : Nat
       simp only at h
       split at h
       · cases h
-      · rename_i enc henc
-        split at h
+      · split at h
         · cases h
-        · rename_i hchk
-          cases enc with
-          | none =>
-            simp only [Option.map_none] at h
-            injection h with h; injection h with _ h2; injection h2 with h2 _; cases h2
-          | some b =>
-            simp only [Option.map_some, hfirst, Bool.and_false, Bool.false_and, Bool.false_eq_true, if_false] at h
-            have fin : ∀ sl : BI,
-                (if (!(sl.v == (defs.datas.getD ref default).encoding.v && sl.size == (defs.datas.getD ref default).encoding.size)) = true
-                  then (Except.ok ({ defs with datas := defs.datas.set ref { (defs.datas.getD ref default) with encoding := sl } }, false,
-                        if ctx.last = true then ["data element did not converge"] else []) : ItemRes)
-                  else .ok ({ defs with datas := defs.datas.set ref { (defs.datas.getD ref default) with encoding := sl } }, true, [])) = .ok (defs', true, rep) →
-                defs' = defs := by
-              intro sl hh
-              rcases ite_ok_inv _ _ _ _ hh with ⟨_, hh⟩ | ⟨hc, hh⟩
-              · injection hh with hh; injection hh with _ h2; injection h2 with h2 _; cases h2
-              · injection hh with hh; injection hh with h1 _
-                subst h1
-                have hb : (sl.v == (defs.datas.getD ref default).encoding.v && sl.size == (defs.datas.getD ref default).encoding.size) = true := by
-                  simpa using hc
-                rw [bi_eq_of_beq _ _ hb]
-                exact datas_set_self defs ref
-            cases elemSize with
-            | none => exact fin _ h
-            | some n => exact fin _ h
+        · exact dataStore_id st defs defs' ctx ref _ rep hfirst h
 
 /-! ## one node, the node list, the pass -/
 
@@ -477,7 +470,7 @@ theorem resolveInstruction_syms (st : Static) (defs defs' : Defs) (ctx : RCtx) (
   all_goals (cases h <;> rfl)
 theorem resolveData_syms (st : Static) (defs defs' : Defs) (ctx : RCtx) (ref : Nat) (sz : Option Nat) (e : Expr) (s : Bool) (rep : List String)
     (h : resolveData st defs ctx ref sz e = .ok (defs', s, rep)) : defs'.symbols = defs.symbols := by
-  unfold resolveData at h
+  unfold resolveData dataStore at h
   simp only at h
   repeat' (first | (split at h) )
   all_goals (cases h <;> rfl)
